@@ -65,7 +65,7 @@ NOT_REACHED = [
     "records longer than 20000 samples except the real example files (180001 samples)",
     "GCF samples beyond +-2^30 (obspy's GCF codec does not round-trip larger first differences: 'last data != RIC')",
 ]
-BUDGET = {"quick": dict(cases=1200, seconds=60, shards=4),
+BUDGET = {"quick": dict(cases=2400, seconds=60, shards=4),
           "thorough": dict(cases=30000, seconds=600, shards=16)}
 REQUIRED = ["mon:reads-valid-files", "mon:samples-on-right-components", "mon:time-step", "mon:orientation",
             "mon:order-invariant", "mon:count-mismatch-refused", "mon:missing-or-duplicate-refused",
